@@ -36,4 +36,8 @@ PROPS = {
         "trusted": ["Go timers do not fire before their duration has elapsed (Timer.notEarly hypothesis; sampled by the timing scenario)"],
     },
     "C15": {"modules": [], "streams": [{"name": "reader", "quick": 8000, "thorough": 60000}], "rule": "see C09"},
+    "C06": {"modules": [], "streams": [{"name": "render", "quick": 3000, "thorough": 100000}], "rule": "render histories"},
+    "C14": {"modules": [], "streams": [{"name": "render", "quick": 3000, "thorough": 100000}], "rule": "render histories"},
+    "C05": {"modules": [], "scenarios": ["modes"], "rule": "see scenario rule"},
+    "C12": {"modules": [], "scenarios": ["modes"], "rule": "see scenario rule"},
 }
